@@ -1,0 +1,12 @@
+//go:build verif
+
+package appdb
+
+// VerifBlockTimes returns the cached (or stored) list of recent block times. Add-only file
+// used by the verification harness (build tag verif).
+func (appDB *AppDB) VerifBlockTimes() []uint64 {
+	appDB.GetLastBlockTimeDelta()
+	appDB.mu.Lock()
+	defer appDB.mu.Unlock()
+	return append([]uint64{}, appDB.lastTimeBlocks...)
+}
